@@ -81,6 +81,9 @@ type orcObj struct {
 	// Inherited (nested boards): some reference is declared outside the addressed board's
 	// own AST (the board inherits the element from its base board).
 	Inherited bool
+	// InheritedKey: a plain-key (non-connection) reference lies outside the board's own AST,
+	// i.e. the base board *declares* the object (not merely uses it as a connection endpoint).
+	InheritedKey bool
 	// DupAttr: one of the object's maps declares the same attribute key twice.
 	DupAttr bool
 }
@@ -187,6 +190,9 @@ func orcSnapOf(g *d2graph.Graph) *orcSnap {
 			}
 			if g.BaseAST != nil && ref.ScopeAST != nil && ref.ScopeAST != g.BaseAST && g.Parent != nil {
 				oo.Inherited = true
+				if len(ref.MapKey.Edges) == 0 {
+					oo.InheritedKey = true
+				}
 			}
 			if m := ref.MapKey.Value.Map; m != nil && len(ref.MapKey.Edges) == 0 && ref.Key != nil && ref.KeyPathIndex == len(ref.Key.Path)-1 {
 				seen := map[string]bool{}
